@@ -113,3 +113,7 @@ def run(chk):
                       'version, validation level and encoding characters')
     codelemmas.dynamic_parser_handoff(chk, c, 'C17-K')
 
+    chk.rule('C17-G', 'unsupported versions / validation levels are refused under the same conditions as in the reviewed tree')
+    from . import guardrules
+    ng_ = guardrules.check(chk, c, 'C17-G', ['__init__.check_version', '__init__.check_validation_level'])
+    chk.floor('refusal predicates compared (C17-G)', ng_, 1)
